@@ -15,6 +15,7 @@ import (
 	"sort"
 	"strconv"
 	"strings"
+	"sync"
 	"testing"
 
 	"github.com/foxcpp/maddy/framework/exterrors"
@@ -126,6 +127,7 @@ func slug(s string) string {
 func judgeObserver(r *rep.Reporter, c *rep.Case, where string, relayed ...map[string]bool) {
 	obs := verifkit.SMTPErrorObservations()
 	total := verifkit.SMTPErrorTotal()
+	recordReach(r, where, obs)
 	r.Count("observer_smtp_errors", int64(total))
 	for _, o := range obs {
 		r.Distinct("observer_pairs", fmt.Sprintf("%d %d.%d.%d", o.Code, o.Enh[0], o.Enh[1], o.Enh[2]))
@@ -166,6 +168,80 @@ type literalSite struct {
 	Enh      string `json:"enhanced_code"`
 	Kind     string `json:"kind"`
 	Messsage string `json:"message,omitempty"`
+
+	msgPrefix string // constant leading text of the Message expression
+	msgExact  bool   // the whole Message is that constant
+	// constant CheckName / TargetName of the literal ("" = absent or computed)
+	checkName, targetName string
+}
+
+// constPrefix: the constant leading text of a string expression ("a", "a" + "b",
+// "a" + x) and whether it is the whole value.
+func constPrefix(e ast.Expr) (string, bool) {
+	switch v := e.(type) {
+	case *ast.BasicLit:
+		if v.Kind == token.STRING {
+			if u, err := strconv.Unquote(v.Value); err == nil {
+				return u, true
+			}
+		}
+	case *ast.ParenExpr:
+		return constPrefix(v.X)
+	case *ast.BinaryExpr:
+		if v.Op == token.ADD {
+			l, lex := constPrefix(v.X)
+			if !lex {
+				return l, false
+			}
+			r, rex := constPrefix(v.Y)
+			return l + r, rex
+		}
+	}
+	return "", false
+}
+
+// Run-time reach of the census: a literal site counts as reached when an
+// SMTPError with its constant message (or constant message prefix) and - where
+// constant - its code passed through Fields() during a case, i.e. was converted
+// for a reply, a record, a report or a log line. Sites that share file,
+// function, code and message are one key.
+var (
+	reachOnce  sync.Once
+	reachSites []literalSite
+)
+
+func siteKey(s *literalSite) string {
+	return fmt.Sprintf("%s:%s code=%s %q", s.File, s.Func, s.Code, s.msgPrefix)
+}
+
+func recordReach(r *rep.Reporter, where string, obs []verifkit.SMTPErrObs) {
+	reachOnce.Do(func() {
+		if root := os.Getenv("VERIF_REPO"); root != "" {
+			all, _ := collectLiteralSites(root)
+			for _, s := range all {
+				if len(s.msgPrefix) >= 8 {
+					reachSites = append(reachSites, s)
+				}
+			}
+		}
+	})
+	for _, o := range obs {
+		for i := range reachSites {
+			s := &reachSites[i]
+			if s.msgExact && o.Msg != s.msgPrefix || !strings.HasPrefix(o.Msg, s.msgPrefix) {
+				continue
+			}
+			if code, ok := strconv.Atoi(s.Code); ok == nil && code != o.Code {
+				continue
+			}
+			if s.checkName != "" && s.checkName != o.Check || s.targetName != "" && s.targetName != o.Target {
+				// a literal naming its check / target is only matched by an error carrying that name
+				continue
+			}
+			r.Distinct("census_literal_sites_reached_at_run_time", siteKey(s))
+			r.Distinct("census_literal_sites_reached_by_workload", where+": "+siteKey(s))
+		}
+	}
 }
 
 func exprStr(e ast.Expr) string {
@@ -234,13 +310,9 @@ func helperCall(e ast.Expr, name string) (*ast.CallExpr, bool) {
 	return nil, false
 }
 
-func runCensus(t *testing.T, r *rep.Reporter, c *rep.Case) {
-	root := os.Getenv("VERIF_REPO")
-	if root == "" {
-		c.Inconclusive("VERIF_REPO is not set; the literal census cannot run")
-		c.Done("census", false)
-		return
-	}
+// collectLiteralSites parses the non-test Go files below root and classifies
+// every SMTPError composite literal (see runCensus).
+func collectLiteralSites(root string) ([]literalSite, int) {
 	fset := token.NewFileSet()
 	var sites []literalSite
 	files := 0
@@ -285,8 +357,8 @@ func runCensus(t *testing.T, r *rep.Reporter, c *rep.Case) {
 				if tn != "exterrors.SMTPError" && tn != "smtp.SMTPError" && !(tn == "SMTPError" && (f.Name.Name == "exterrors" || f.Name.Name == "smtp")) {
 					return true
 				}
-				var codeE, enhE ast.Expr
-				msg := ""
+				var codeE, enhE, msgE ast.Expr
+				msg, checkN, targetN := "", "", ""
 				for _, e := range cl.Elts {
 					kv, ok := e.(*ast.KeyValueExpr)
 					if !ok {
@@ -303,9 +375,16 @@ func runCensus(t *testing.T, r *rep.Reporter, c *rep.Case) {
 						enhE = kv.Value
 					case "Message":
 						msg = exprStr(kv.Value)
+						msgE = kv.Value
+					case "CheckName":
+						checkN, _ = constPrefix(kv.Value)
+					case "TargetName":
+						targetN, _ = constPrefix(kv.Value)
 					}
 				}
 				s := literalSite{File: rel, Func: fnName, Line: fset.Position(cl.Pos()).Line, Type: tn, Code: exprStr(codeE), Enh: exprStr(enhE), Messsage: msg}
+				s.msgPrefix, s.msgExact = constPrefix(msgE)
+				s.checkName, s.targetName = checkN, targetN
 				code, codeConst := constInt(codeE)
 				enh, enhConst := constEnh(enhE)
 				_, hc := helperCall(codeE, "SMTPCode")
@@ -350,6 +429,17 @@ func runCensus(t *testing.T, r *rep.Reporter, c *rep.Case) {
 		}
 		return nil
 	})
+	return sites, files
+}
+
+func runCensus(t *testing.T, r *rep.Reporter, c *rep.Case) {
+	root := os.Getenv("VERIF_REPO")
+	if root == "" {
+		c.Inconclusive("VERIF_REPO is not set; the literal census cannot run")
+		c.Done("census", false)
+		return
+	}
+	sites, files := collectLiteralSites(root)
 	if files < 50 || len(sites) < 20 {
 		c.Inconclusive(fmt.Sprintf("census saw %d files and %d literals under %s; that is not the source tree", files, len(sites), root))
 		c.Done("census", false)
@@ -374,6 +464,13 @@ func runCensus(t *testing.T, r *rep.Reporter, c *rep.Case) {
 	for k, n := range kinds {
 		r.Count("census_"+k, int64(n))
 	}
+	keys := map[string]bool{}
+	for i := range sites {
+		if len(sites[i].msgPrefix) >= 8 {
+			keys[siteKey(&sites[i])] = true
+		}
+	}
+	r.Count("census_literal_site_keys(reach is counted over these)", int64(len(keys)))
 	r.Count("census_literals", int64(len(sites)))
 	r.Count("census_files", int64(files))
 	r.Set("census_not_decided_dynamic_code_with_constant_enhanced_code", gaps)
